@@ -48,6 +48,37 @@ Example c04_example_ok :
      = Some (Ok r) /\ ad_flags (mr_auth_data r) = 93.
 Proof. eexists. split; reflexivity. Qed.
 
+(** *** tie to the source text, regenerated on every run (translators/ceremony_skeleton.py): the order in which
+    the bodies of check_user / make_credential / get_assertion mention their calls is the order the model
+    performs them in, on every path, for every request and answer script *)
+From Coq Require Import String.
+From PK Require Import Auth.gen.Skeleton Auth.SkeletonFacts.
+Open Scope string_scope.
+Theorem c04_source_order_make_credential : forall c q, follows (skeleton SRC_MAKE_CREDENTIAL) (make_credential c q).
+Proof. exact make_credential_follows_source_order. Qed.
+Theorem c04_source_order_get_assertion : forall adb c q, follows (skeleton SRC_GET_ASSERTION) (get_assertion adb c q).
+Proof. exact get_assertion_follows_source_order. Qed.
+Theorem c04_source_order_check_user : forall o cred, follows (skeleton SRC_CHECK_USER) (check_user o cred).
+Proof. exact check_user_follows_source_order. Qed.
+Theorem c04_source_order_on_runs : forall c q script,
+  subseq (map (fun ea => kind (fst ea)) (fst (interp (make_credential c q) script))) (skeleton SRC_MAKE_CREDENTIAL).
+Proof. exact make_credential_effects_in_source_order. Qed.
+Theorem c04_source_consent_precedes_effects :
+  before "CheckUser" "Find" SRC_MAKE_CREDENTIAL = true
+  /\ before "CheckUser" "Rand" SRC_MAKE_CREDENTIAL = true
+  /\ before "CheckUser" "KeyGen" SRC_MAKE_CREDENTIAL = true
+  /\ before "CheckUser" "Save" SRC_MAKE_CREDENTIAL = true
+  /\ before "CheckUser" "Update" SRC_GET_ASSERTION = true
+  /\ before "CheckUser" "Sign" SRC_GET_ASSERTION = true
+  /\ before "Update" "Sign" SRC_GET_ASSERTION = true
+  /\ before "VerifEnabled" "UvCheck" SRC_CHECK_USER = true.
+Proof. exact source_consent_precedes_effects. Qed.
+
 Print Assumptions c04_make_credential.
 Print Assumptions c04_get_assertion.
 Print Assumptions c04_violation_bit_meaning.
+Print Assumptions c04_source_order_make_credential.
+Print Assumptions c04_source_order_get_assertion.
+Print Assumptions c04_source_order_check_user.
+Print Assumptions c04_source_order_on_runs.
+Print Assumptions c04_source_consent_precedes_effects.
